@@ -49,7 +49,10 @@ def cases(tier):
                 tabs.append([('NEVER', x), ('IPN', y), ('NODE', x)])
     out = []
     for i, t in enumerate(tabs):
-        out.append(dict(table=';'.join('%s=%s' % e for e in t)))
+        out.append(dict(table=';'.join('%s=%s' % e for e in t), drain='each'))
+    # bundles arriving back to back: the event loop runs only after all three were received
+    for t in ([('ANY', 'forward')], [('A', 'forward'), ('ANY', 'deliver')], [('ANY', 'delete')]):
+        out.append(dict(table=';'.join('%s=%s' % e for e in t), drain='end'))
     return out
 
 
@@ -93,7 +96,7 @@ def harness(case, tier):
             data = admin
             pri['flags'] = pri['flags'] | 2
         else:
-            plen = c.sym_int('plen%d' % i, 0, 2, size=True)
+            plen = c.sym_int('plen%d' % i, 0, 2, size=True) if frag else 1
             data = c.sym_blob('pay%d' % i, plen)
         if frag:
             off = c.sym_int('off%d' % i, 0, 1)
@@ -103,7 +106,8 @@ def harness(case, tier):
         wire = rfc9171.encode_bundle(pri, [dict(type=1, num=1, flags=0, crc_type=0, data=data)])
         before = (len(w.delivered), len(w.sent))
         w.recv(wire)
-        w.run_idle(30)
+        if case['drain'] == 'each':
+            w.run_idle(30)
         esc = w.escaped()
         c.prove(not esc, 'no-callback-exception', detail=[repr(e) for (_s, e) in esc])
         # independent model
@@ -123,12 +127,20 @@ def harness(case, tier):
         tag = 'dup' if dup else ('own' if own else 'fresh')
         want_d = 1 if (act == 'deliver' and not frag) else 0
         want_f = 1 if act == 'forward' else 0
-        c.prove(got_d == want_d, 'deliveries-match-model[%s]' % tag,
-                detail=dict(i=i, dest=dest, table=table, action=act, got=got_d, want=want_d, frag=frag))
-        c.prove(got_f == want_f, 'forwards-match-model[%s]' % tag,
-                detail=dict(i=i, dest=dest, table=table, action=act, got=got_f, want=want_f, frag=frag))
+        if case['drain'] == 'each':
+            c.prove(got_d == want_d, 'deliveries-match-model[%s]' % tag,
+                    detail=dict(i=i, dest=dest, table=table, action=act, got=got_d, want=want_d, frag=frag))
+            c.prove(got_f == want_f, 'forwards-match-model[%s]' % tag,
+                    detail=dict(i=i, dest=dest, table=table, action=act, got=got_f, want=want_f, frag=frag))
         exp_deliver += want_d
         exp_forward += want_f
+    if case['drain'] == 'end':
+        w.run_idle(60)
+        c.prove(not w.escaped(), 'no-callback-exception', detail=[repr(e) for (_s, e) in w.escaped()])
+        c.prove(len(w.delivered) == exp_deliver, 'deliveries-match-model[back-to-back]',
+                detail=dict(dest=dest, table=table, got=len(w.delivered), want=exp_deliver))
+        c.prove(len(w.sent) == exp_forward, 'forwards-match-model[back-to-back]',
+                detail=dict(dest=dest, table=table, got=len(w.sent), want=exp_forward))
     return {'class': 'routed', 'delivered': len(w.delivered), 'forwarded': len(w.sent)}
 
 
